@@ -24,7 +24,7 @@ func init() {
 	core.Register(&core.Check{
 		ID:    "C17",
 		Level: "model_checking",
-		Rule: "all decimal int spellings <=4 chars over {0,1,7,9,_} + spellings around 2^63/2^64/10^19; 0x/0o/0b spellings <=3 digits + widest values; exponent ints M e K (K in [-3,20]); floats D.D (<=3+3 digits) and exponent floats incl. extreme magnitudes; " +
+		Rule: "all decimal int spellings <=4 chars over {0,1,7,9,_} + spellings around 2^63/2^64/10^19; 0x/0o/0b spellings <=3 digits + widest values; exponent ints M e K (K in [-3,20]) and with extreme exponents (21 .. beyond int64; zero mantissas, non-representable products, exact quotients of mantissas with up to 3002 digits); floats D.D (<=3+3 digits) and exponent floats incl. extreme magnitudes; " +
 			"every escape \\c for c in 0x20..0x7e, \\x/\\u/octal samples, embedded quotes, trailing backslash, char and raw strings; every identifier <=4 (thorough 5) chars over {a,Z,7,_,?,!} matching the documented pattern, every keyword-prefixed/suffixed name and long names of every length 2^k-1, 2^k, 2^k+1 up to 1025 (thorough 4097) in 4 spellings, each as variable, property, symbol, called function, symbol function (sym?) and listed key, " +
 			"each used as variable, property, symbol and call; oracle = math/big, strconv.ParseFloat, escape table; non-representable literals must be rejected; non-trivial = every case; distinct = distinct spelling x use",
 		Assumptions: []string{
@@ -148,6 +148,23 @@ func gen(thorough bool, emit func(tcase)) {
 			}
 		}
 	}
+	// C'. exponent ints with extreme exponents: zero stays zero, a non-zero mantissa times a huge power of ten cannot
+	// be represented, a mantissa with enough trailing zeros divided by a huge power of ten is exact
+	for _, k := range []string{"21", "99", "400", "999", "1000", "1001", "1002", "5000", "99999", "9223372036854775807", "9223372036854775808", "99999999999999999999"} {
+		for _, m := range []string{"0", "00", "000", "0_0"} {
+			emit(tcase{Class: "int/exponent-extreme", Src: m + "e" + k, Kind: "int", Int: "0"})
+			emit(tcase{Class: "int/exponent-extreme", Src: m + "e-" + k, Kind: "int", Int: "0"})
+		}
+		for _, m := range []string{"1", "7", "10", "922"} {
+			emit(tcase{Class: "int/exponent-extreme", Src: m + "e" + k, Kind: "reject", Risky: true})
+		}
+	}
+	for _, k := range []int{21, 400, 999, 1000, 1001, 1002, 3000} {
+		for _, m := range []string{"1", "7", "42"} {
+			emit(tcase{Class: "int/exponent-extreme", Src: m + strings.Repeat("0", k) + "e-" + fmt.Sprint(k), Kind: "int", Int: m})
+			emit(tcase{Class: "int/exponent-extreme", Src: m + strings.Repeat("0", k+2) + "e-" + fmt.Sprint(k), Kind: "int", Int: m + "00"})
+		}
+	}
 	// D. floats
 	var digs []string
 	words("0159", 3, func(w string) { digs = append(digs, w) })
@@ -208,6 +225,11 @@ func gen(thorough bool, emit func(tcase)) {
 			continue
 		}
 		emit(tcase{Class: "str/interpolated-literal-piece", Src: `"x` + ch + `y#{5}z` + ch + ch + `#{6}` + ch + `"`, Kind: "str", Strs: []string{"x" + ch + "y5z" + ch + ch + "6" + ch}})
+	}
+	// `#` that does not open an interpolation is an ordinary character, also next to one
+	for _, p := range [][2]string{{`"a#b#{1}"`, "a#b1"}, {`"#{1}#"`, "1#"}, {`"a#{1}#b"`, "a1#b"}, {`"##{1}"`, "#1"}, {`"#a#{1}#b#{2}#c#"`, "#a1#b2#c#"}, {`"###{1}##"`, "##1##"}, {`"# #{1} #"`, "# 1 #"},
+		{`"a#b"`, "a#b"}, {`"#"`, "#"}, {`"##"`, "##"}, {`"a\\##{1}"`, `a\#1`}, {`"#\"#{1}"`, `#"1`}} {
+		emit(tcase{Class: "str/interpolated-literal-piece-with-hash", Src: p[0], Kind: "str", Strs: []string{p[1]}})
 	}
 	for _, p := range [][2]string{{`"\x25d#{1}\u0025s"`, "%d1%s"}, {`"100%#{1}"`, "100%1"}, {`"#{1}%"`, "1%"}, {`"%v#{nil}%v"`, "%vnil%v"}, {`"a\tb#{1}\n"`, "a\tb1\n"}, {`"日本#{1}語"`, "日本1語"}} {
 		emit(tcase{Class: "str/interpolated-literal-piece", Src: p[0], Kind: "str", Strs: []string{p[1]}})
